@@ -1,0 +1,69 @@
+//! Verification seams, compiled only with `--cfg okane_verif`.
+//!
+//! `use verif::std;` shadows the extern crate for `std::...` paths in `lib.rs`,
+//! so that the file system and the environment can be simulated.
+//! With no simulator installed everything goes to the real OS.
+
+use ::std::cell::RefCell;
+use ::std::path::Path;
+use ::std::rc::Rc;
+
+/// What the simulator provides in place of the operating system.
+pub trait World {
+    fn read_to_string(&self, path: &Path) -> ::std::io::Result<String>;
+    fn write(&self, path: &Path, contents: &[u8]) -> ::std::io::Result<()>;
+    fn var(&self, key: &str) -> Result<String, ::std::env::VarError>;
+}
+
+thread_local! {
+    static WORLD: RefCell<Option<Rc<dyn World>>> = const { RefCell::new(None) };
+}
+
+/// Installs the simulated world for the current thread. `None` restores the real OS.
+pub fn set_world(world: Option<Rc<dyn World>>) {
+    WORLD.with(|w| *w.borrow_mut() = world);
+}
+
+fn world() -> Option<Rc<dyn World>> {
+    WORLD.with(|w| w.borrow().clone())
+}
+
+/// Shadow of the `std` crate.
+pub mod std {
+    pub use ::std::*;
+
+    pub mod fs {
+        pub use ::std::fs::*;
+
+        use ::std::io;
+        use ::std::path::Path;
+
+        pub fn read_to_string<P: AsRef<Path>>(path: P) -> io::Result<String> {
+            match super::super::world() {
+                Some(w) => w.read_to_string(path.as_ref()),
+                None => ::std::fs::read_to_string(path),
+            }
+        }
+
+        pub fn write<P: AsRef<Path>, C: AsRef<[u8]>>(path: P, contents: C) -> io::Result<()> {
+            match super::super::world() {
+                Some(w) => w.write(path.as_ref(), contents.as_ref()),
+                None => ::std::fs::write(path, contents),
+            }
+        }
+    }
+
+    pub mod env {
+        pub use ::std::env::*;
+
+        pub fn var<K: AsRef<::std::ffi::OsStr>>(key: K) -> Result<String, VarError> {
+            match super::super::world() {
+                Some(w) => match key.as_ref().to_str() {
+                    Some(k) => w.var(k),
+                    None => Err(VarError::NotPresent),
+                },
+                None => ::std::env::var(key),
+            }
+        }
+    }
+}
